@@ -15,7 +15,8 @@ LEVEL = "fault_enumeration"
 TECHNIQUE = (
     "generated operation histories run through the real McuBoot/SDP/SDPS classes and the real framing layers against an executable "
     "reference model of the device side plugged in as a DeviceBase stub; every position of the device-to-host byte stream of short "
-    "histories is enumerated as a fault point, longer histories sample fault points"
+    "histories is enumerated as a fault point, longer histories sample fault points; the composite listings (properties, memories) are "
+    "operations of the alphabet; the harness owns the clock of the host's time-outs (virtual time)"
 )
 LEVEL_TEXT = (
     "fault enumeration: for a fixed set of short histories per transport (mboot serial framing, mboot USB-HID, SDP UART, SDP USB-HID, SDPS) "
